@@ -36,7 +36,6 @@ Print Assumptions C01_copy_result.
    and ReferencePusher destinations, root copied or already present. *)
 Theorem C01_tagged :
   forall (g : graph) (c : cfg) (d0 : list node) (tr : list event) (st : state),
-    closed_nodes g d0 ->
     accepts g c d0 tr = Some st -> returned st = Some true -> c_mode c <> MGraph ->
     tag st = Some (c_root c).
 Proof. exact tagged_lemma. Qed.
@@ -48,7 +47,6 @@ Print Assumptions C01_tagged.
 Theorem C01_tagged_top :
   forall (g : graph) (opt : Z) (refpusher : bool) (root : node)
          (cached0 d0 : list node) (tags0 : str -> option node) (srcRef dstRef : str) tr st,
-    closed_nodes g d0 ->
     accepts g (copy_cfg defaultConcurrency opt refpusher root cached0) d0 tr = Some st ->
     returned st = Some true ->
     tags_after tags0 (eff_ref srcRef dstRef) st (eff_ref srcRef dstRef) = Some root.
